@@ -12,7 +12,7 @@ from collections import defaultdict
 
 from .bdd import BDD
 from .cfg import cfg_of
-from .expr import (VARIANTS, fna_of, is_float_ty, is_int_ty, mk_bin, mk_not, show, subst, walk)
+from .expr import (DUAL_OF, VARIANTS, fna_of, is_float_ty, is_int_ty, mk_bin, mk_not, show, subst, walk)
 
 LOG_MACRO_CRATES = ("tracing", "log", "tracing_core")
 
@@ -81,10 +81,10 @@ class FormulaSpace:
         return " & ".join(("" if v else "!") + self.show_atom(b.vars[i]) for i, v in sorted(m.items()))
 
     def is_atom(self, e):
-        """Formula for `subject is variant` (handles the dual of a two-valued switch)."""
-        d = self.duals.get(e)
-        if d is not None:
-            return self.bdd.NOT(self.atom(d[0]))
+        """Formula for `subject is variant`; the second variant of a two-variant enum is the negation of the first."""
+        first = DUAL_OF.get(e[2])
+        if first is not None:
+            return self.bdd.NOT(self.atom(("is", e[1], first)))
         return self.atom(e)
 
     def lit(self, e):
@@ -205,13 +205,14 @@ class PathA(FormulaSpace):
     avoid: blocks treated as deleted (for SKIP queries: "reaches X without passing S").
     """
 
-    def __init__(self, world, fn, avoid=(), bdd=None):
+    def __init__(self, world, fn, avoid=(), bdd=None, entry=0):
         self.world = world
         self.fn = fn
         self.fa = fna_of(world, fn)
         self.cfg = cfg_of(fn)
         FormulaSpace.__init__(self, bdd, fn.names)
         self.avoid = set(avoid)
+        self.entry = entry      # region entry: path conditions are relative to reaching this block
         self.atom_keys = {}     # var index -> mem keys
         self.pc_in = {}
         self.bool_env = {}      # block -> {local: (T, F)} on entry
@@ -255,7 +256,8 @@ class PathA(FormulaSpace):
         cfg = self.cfg
         back = set(cfg.back_edges())
         indeg = defaultdict(int)
-        live = [b for b in sorted(cfg.live) if b not in self.avoid]
+        region = cfg.live if self.entry == 0 else cfg.reach_from(self.entry, self.avoid)
+        live = [b for b in sorted(region) if b not in self.avoid]
         liveset = set(live)
         for a in live:
             for s in cfg.succ[a]:
@@ -287,7 +289,7 @@ class PathA(FormulaSpace):
         order, back = self._topo()
         heads = set(h for (_t, h) in back)
         incoming = defaultdict(list)   # block -> [(cond, env_out)]
-        incoming[0].append((b.TRUE, {}))
+        incoming[self.entry].append((b.TRUE, {}))
         self.order = order
         for blk in order:
             inc = incoming.get(blk, [])
@@ -399,17 +401,32 @@ class PathA(FormulaSpace):
             subject = val
             mk = lambda v: ("bin", "Eq", val, ("const", v, ty), ty) if repr(val) <= repr(("const", v, ty)) else\
                 ("bin", "Eq", ("const", v, ty), val, ty)
-        if other is None and len(vals) == 2:
+        is_enum = val[0] == "discr"
+        nvar = len(VARIANTS.get(subject, ())) if is_enum else 0
+        mkf = (lambda v: self.is_atom(mk(v))) if is_enum else (lambda v: self.atom(mk(v)))
+        if is_enum and nvar == 2:
+            # two-variant enum: one atom, whatever the shape of the switch
+            allv = dict(VARIANTS[subject])
+            listed = dict(vals)
+            for (v, d) in vals:
+                out.append((d, b.AND(pc, mkf(v))))
+            if other is not None:
+                rest = [v for v in allv if v not in listed]
+                c = b.FALSE
+                for v in rest:
+                    c = b.OR(c, mkf(v))
+                out.append((other, b.AND(pc, c)))
+            return self._merge(out)
+        if other is None and len(vals) == 2 and not is_enum:
             (v0, d0), (v1, d1) = vals
             a0 = self.atom(mk(v0))
-            # keep one atom for a two-valued exhaustive switch; remember the dual name for matching
             self.duals[mk(v1)] = (mk(v0), False)
             out.append((d0, b.AND(pc, a0)))
             out.append((d1, b.AND(pc, b.NOT(a0))))
             return self._merge(out)
         if other is None and len(vals) == 1:
             return [(vals[0][1], pc)]
-        atoms = [self.atom(mk(v)) for (v, _d) in vals]
+        atoms = [mkf(v) for (v, _d) in vals]
         for i, (v, d) in enumerate(vals):
             c = atoms[i]
             for j, a in enumerate(atoms):
